@@ -208,6 +208,47 @@ func init() {
 		if !strings.Contains(b, `if len(password) == 0 || len(password) > MaxFieldLength { return nil, ErrPasswordLengthInvalid }`) {
 			fail("standardKeyEncryption: password length guard")
 		}
+		// agile package decryption: segment loop and IV construction (model XlModel.Crypt.agileLoop)
+		b = c13body("", "decryptPackage")
+		for _, pat := range []string{
+			`encryptedKey, offset := encryption.KeyData, packageOffset`,
+			`for end < len(input) { start = end end = start + packageEncryptionChunkSize if end > len(input) { end = len(input) }`,
+			`if (end + offset) < len(input) { inputChunk = input[start+offset : end+offset] } else { inputChunk = input[start+offset : end] }`,
+			`remainder := len(inputChunk) % encryptedKey.BlockSize if remainder != 0 { inputChunk = append(inputChunk, make([]byte, encryptedKey.BlockSize-remainder)...) }`,
+			`iv, err = createIV(i, encryption)`,
+			`outputChunk, err = decrypt(packageKey, iv, inputChunk)`,
+			`outputChunks = append(outputChunks, outputChunk...) i++ }`,
+		} {
+			if !strings.Contains(b, pat) {
+				fail("decryptPackage: `%s`", pat)
+			}
+		}
+		b = c13body("", "createIV")
+		for _, pat := range []string{
+			`blockKeyBuf = createUInt32LEBuffer(blockKey.(int), 4)`,
+			`iv := hashing(encryptedKey.HashAlgorithm, append(saltValue, blockKeyBuf...))`,
+			`} else if len(iv) > encryptedKey.BlockSize { iv = iv[:encryptedKey.BlockSize] }`,
+		} {
+			if !strings.Contains(b, pat) {
+				fail("createIV: `%s`", pat)
+			}
+		}
+		b = c13body("", "checkAgileEncryptionInfo")
+		if !strings.Contains(b, `if encryption.KeyData.BlockSize != aes.BlockSize {`) {
+			fail("checkAgileEncryptionInfo: block size must be the AES block size")
+		}
+		// password -> UTF-16LE (model XlModel.Crypt.utf16le): both key derivations use the x/text encoder on the raw password
+		for _, fn := range []string{"standardConvertPasswdToKey", "convertPasswdToKey"} {
+			b = c13body("", fn)
+			if !strings.Contains(b, `encoder := unicode.UTF16(unicode.LittleEndian, unicode.IgnoreBOM).NewEncoder() passwordBuffer, err := encoder.Bytes([]byte(`) {
+				fail("%s: UTF-16LE encoder of the password", fn)
+			}
+		}
+		b = c13body("", "standardConvertPasswdToKey")
+		if !strings.Contains(b, `key := hashing("sha1", verifier.Salt, passwordBuffer) for i := 0; i < iterCount; i++ { iterator := createUInt32LEBuffer(i, 4) key = hashing("sha1", iterator, key) }`) {
+			fail("standardConvertPasswdToKey: salt || UTF-16LE(password), then iterCount rounds")
+		}
+		w.WriteString("def agileLoopPresent : Bool := true  -- decryptPackage / createIV statements matched\n")
 		b = c13body("encryption", "encrypt")
 		if !strings.Contains(b, `if pad := inputBytes % e.BlockSize; pad != 0 { inputBytes += e.BlockSize - pad }`) ||
 			!strings.Contains(b, `for i := 0; i < inputBytes; i += e.BlockSize {`) ||
